@@ -10,11 +10,11 @@ from . import spec as S
 CR = "vopy/confidence_region.py"
 
 
-def _rect_setup(t, m, K, slack_kind):
-    t.mode = "unrolled m=%d K=%d slack=%s" % (m, K, slack_kind)
+def _rect_setup(t, m, K, slack_kind, lower_kind="f"):
+    t.mode = "unrolled m=%d K=%d slack=%s%s" % (m, K, slack_kind, "" if lower_kind == "f" else "; lower bounds of INTEGER dtype")
     order = t.inp("order", InOrder("o", K, m))
-    r1 = t.inp("r1", InRect("r1", m))
-    r2 = t.inp("r2", InRect("r2", m))
+    r1 = t.inp("r1", InRect("r1", m, lower_kind=lower_kind))
+    r2 = t.inp("r2", InRect("r2", m, lower_kind=lower_kind))
     O, R1, R2 = t.inputs["order"], t.inputs["r1"], t.inputs["r2"]
     t.assume(R1.valid(), R2.valid())
     if slack_kind == "zero":
@@ -34,10 +34,10 @@ def _rect_setup(t, m, K, slack_kind):
     return order, r1, r2, s, svec, O, R1, R2
 
 
-def _rect_task(m, K, slack_kind, tier="quick"):
-    @task("C09", "Rect.is_dominated[m=%d,K=%d,slack=%s]" % (m, K, slack_kind), tier=tier)
+def _rect_task(m, K, slack_kind, tier="quick", lower_kind="f"):
+    @task("C09", "Rect.is_dominated[m=%d,K=%d,slack=%s%s]" % (m, K, slack_kind, "" if lower_kind == "f" else ",lower dtype=int"), tier=tier)
     def _t(t):
-        order, r1, r2, s, svec, O, R1, R2 = _rect_setup(t, m, K, slack_kind)
+        order, r1, r2, s, svec, O, R1, R2 = _rect_setup(t, m, K, slack_kind, lower_kind)
         paths = t.run(CR, "RectangularConfidenceRegion.is_dominated", [None, order, r1, r2, s])
         lo1, up1 = R1.lower.snapshot.flat(), R1.upper.snapshot.flat()
         lo2, up2 = R2.lower.snapshot.flat(), R2.upper.snapshot.flat()
@@ -64,6 +64,8 @@ for (_m, _K) in [(1, 1), (2, 2), (2, 3), (3, 3)]:
     for _sk in ("zero", "scalar", "vec"):
         _rect_task(_m, _K, _sk)
 _rect_task(2, 2, "vec1")
+_rect_task(2, 2, "zero", lower_kind="i")     # integer-dtype lower bounds with real upper bounds: no value may be truncated
+_rect_task(2, 2, "vec", lower_kind="i")
 _rect_task(3, 4, "vec", tier="thorough")
 _rect_task(4, 4, "vec", tier="thorough")
 
